@@ -1,6 +1,8 @@
 import MaddyVerif.Model.Session
 import Driver.Util
-/-! Driver for C03: `s <S|L> <D|I> <T><partial>:<r0><r1><r2> <token>… [O:<seg>,<seg>…]` → replies, target logs, leaks, panics. -/
+/-! Driver for C03: `s <S|L> <D|I> <T><partial>:<r0><r1><r2> [P<peer><host>.<limits>] <token>… [O:<seg>,<seg>…]` → replies,
+target logs, leaks, panics, permits out per scope; `t <S|L> <D|I> <a|i|s><order><rate> <k> <peer>` → the replies of
+`k` sessions refused by an exhausted scope and the permits out. -/
 namespace Driver.C03
 open MaddyVerif.Session Driver
 
@@ -12,7 +14,9 @@ def digit? (c : Char) : Option Nat :=
 
 def mkindOf : String → Option MKind
   | "a" => some .ascii | "A" => some .upper | "n" => some .null | "x" => some .syntax
-  | "u" => some .nonAscii | "8" => some .utf8 | "p" => some .param | "z" => some .size | _ => none
+  | "u" => some .nonAscii | "8" => some .utf8 | "p" => some .param | "z" => some .size
+  -- other sender domains (A-label, U-label): other keys of the source scope, the same session behaviour
+  | "i" => some .ascii | "I" => some .utf8 | _ => none
 
 def rvarOf : String → Option RVar
   | "a" => some .plain | "U" => some .upper | "x" => some .syntax | "u" => some .nonAscii | _ => none
@@ -127,8 +131,56 @@ def showOut : Out → String
   | .codes l => "/".intercalate (l.map toString)
   | .skipped => "-"
 
+/-- the scopes (all, ip, source) configured by the limits block with the given index (harness: `c03LimCfgs`) -/
+def limScopes : Nat → Option (Bool × Bool × Bool)
+  | 0 | 1 | 2 | 5 => some (true, true, true)
+  | 3 => some (false, true, false)
+  | 4 => some (true, false, true)
+  | _ => none
+
+/-- `P<kind><host>.<limits>`: the peer address shown to the server does not change what the model does (the
+key of the `ip` scope is the same when the permit is taken and when it is released); the limits block says
+which scopes exist -/
+def parsePeer (t : String) : Option (Bool × Bool × Bool) :=
+  match t.toList with
+  | ['P', k, h, '.', l] =>
+    if !("l4m6zu".toList.contains k) then none else
+    match digit? h, digit? l with
+    | some h, some l => if h > 3 || (k == 'l' && h != 0) then none else limScopes l
+    | _, _ => none
+  | _ => none
+
+def scopeOf : Char → Option Scope
+  | 'a' => some .all | 'i' => some .ip | 's' => some .source | _ => none
+
+def handleT : List String → String
+  | [p, m, lim, k, peer] =>
+    match lim.toList, k.toNat?, peer.toList with
+    | [sc, o, r], some k, [pk, ph] =>
+      match scopeOf sc, digit? ph with
+      | some tight, some ph =>
+        if (p != "S" && p != "L") || (m != "D" && m != "I") || (o != '0' && o != '1') || (r != '0' && r != '1')
+            || k < 1 || k > 4 || ph > 3 || !("4m6zu".toList.contains pk) then "bad-op" else
+        let has : Scope → Bool := fun _ => true
+        -- the session that keeps its transaction open was granted every scope
+        let (h1, _) := takeMsg has (fun _ => true) {}
+        let (codes, h2) := contend has tight k h1
+        -- the end: every session that holds a permit returns it
+        let h3 := (codes.filter (· == 250)).foldl (fun h _ => releaseMsg has h) (releaseMsg has h2)
+        " ".intercalate (codes.map toString) ++ s!" | held={h2.all},{h2.ip},{h2.source} | end={h3.all},{h3.ip},{h3.source}"
+      | _, _ => "bad-op"
+    | _, _, _ => "bad-op"
+  | _ => "bad-op"
+
 def handle : List String → String
-  | "s" :: p :: m :: cfgS :: rest =>
+  | "t" :: rest => handleT rest
+  | "s" :: p :: m :: cfgS :: rest0 =>
+    let (scopes, rest) : Option (Bool × Bool × Bool) × List String := match rest0 with
+      | t :: ts => if t.startsWith "P" then (parsePeer t, ts) else (some (true, true, true), rest0)
+      | [] => (some (true, true, true), rest0)
+    match scopes with
+    | none => "bad-op"
+    | some (hasAll, hasIp, hasSrc) =>
     match cfgS.toList with
     | [t, pmk, ':', r0, r1, r2] =>
       match digit? t, digit? pmk, digit? r0, digit? r1, digit? r2 with
@@ -145,7 +197,8 @@ def handle : List String → String
           let tg := (List.range nT).map (fun k =>
             s!"t{k}:" ++ String.join ((st.w.log.filter (fun d => d.tgt == k)).map showDel))
           " ".intercalate (outs.map showOut) ++ " | " ++ " ".intercalate tg ++
-            s!" | leak={st.w.heldSrc},{st.w.heldNull} | panics={st.w.panics}"
+            s!" | leak={st.w.heldSrc},{st.w.heldNull} | panics={st.w.panics}" ++
+            s!" | held={if hasAll then st.w.heldTotal else 0},{if hasIp then st.w.heldTotal else 0},{if hasSrc then st.w.heldTotal else 0}"
         | _, _ => "bad-op"
       | _, _, _, _, _ => "bad-op"
     | _ => "bad-op"
